@@ -28,7 +28,7 @@ NoFrame == [n |-> 0, cause |-> "", kind |-> "", action |-> "", i |-> "", trig |-
 NewEx == [notes |-> <<>>, hasrec |-> FALSE, rec |-> <<>>, recstable |-> FALSE, hist |-> <<>>,
           lastnote |-> <<>>, pendingNote |-> FALSE, sm |-> "", home |-> ""]
 
-NoEv == [exec |-> "", stack |-> <<>>, state |-> "", sn |-> 0, stype |-> ""]
+NoEv == [exec |-> "", stack |-> <<>>, state |-> "", sn |-> 0, stype |-> "", smid |-> ""]
 
 Fresh(tid) ==
     [tid |-> tid, b |-> EmptyBroker, msg |-> <<>>, ev |-> <<>>, fr |-> NoFrame, ex |-> <<>>,
@@ -62,6 +62,9 @@ TrigIDFromTop(s, k) ==
     LET deep == {z \in TrigStacks(s) : Len(z) = MaxTrigDepth(s)}
         z == CHOOSE z \in deep : TRUE
     IN IF deep = {} \/ k > Len(z) \/ k < 1 THEN "" ELSE z[Len(z) - k + 1][1]
+
+(* is the frame working for an EXPRESS machine?  (by the machine of its trigger events) *)
+FrameIsExpress(s) == \E m \in s.fr.trig : Ev(s, m).smid \in DOMAIN s.smtype /\ s.smtype[Ev(s, m).smid] = "EXPRESS"
 
 (* ---- failures: property, clause, execution ("" = whole run), witness ------ *)
 FX(prop, clause, x, w) == <<[prop |-> prop, clause |-> clause, x |-> x, w |-> ToString(w)]>>
@@ -166,7 +169,7 @@ StepPub(s, e) ==
         frozenev == isev /\ byengine /\ (StackIDs(e.stack) \cap s.failedIDs) # {}
         s1 == [s EXCEPT !.b = Publish(@, e.sn, SeqToSet(e.routed)),
                         !.msg = Upd(@, e.sn, info),
-                        !.ev = IF isev /\ e.mid # "" THEN Upd(@, e.mid, [exec |-> e.exec, stack |-> e.stack, state |-> e.state, sn |-> e.sn, stype |-> e.stype]) ELSE @,
+                        !.ev = IF isev /\ e.mid # "" THEN Upd(@, e.mid, [exec |-> e.exec, stack |-> e.stack, state |-> e.state, sn |-> e.sn, stype |-> e.stype, smid |-> e.smid]) ELSE @,
                         !.rpcs = IF e.kind = "rpc" /\ e.routed # <<>>
                                  THEN @ \cup {[sn |-> e.sn, corr |-> e.corr, base |-> e.corrbase, exec |-> x, stage |-> "queued", fn |-> e.fn, conn |-> e.conn]}
                                  ELSE @,
@@ -245,6 +248,7 @@ StepRec(s, e) ==
                         ELSE NoStop(FrozenPart(r)) = NoStop(FrozenPart(ex0.rec)))
     IN R(s1,
          ChkX(frozenok, "C02", "TerminalFrozen", x, [old |-> IF ex0.hasrec THEN ex0.rec.status ELSE "", new |-> r.status])
+         \o ChkX(~(r.sm \in DOMAIN s.smtype /\ s.smtype[r.sm] = "EXPRESS"), "C09", "ExpressStoresNothing:record", x, r.sm)
          \o ChkX(e.transient \/ RecordShape(r), "C02", "RecordShape", x, r)
          \o ChkX(e.transient \/ RecordKeepsSeconds(r), "C11", "PublishDoesNotAlterRecord:seconds", x, r)
          \o ChkX(~(becomesTerminal /\ x \in s.fr.ackedX), "C03", "TriggerAckLast:terminal-record", x, "")
@@ -269,6 +273,7 @@ StepHist(s, e) ==
                         !.failedIDs = IF isfail /\ id # "" THEN @ \cup {id} ELSE @]
     IN R(s1,
          Chk(e.pos = Len(ex0.hist) + 1, "ENV", "HistObservedInOrder")
+         \o ChkX(~FrameIsExpress(s) \/ (ex0.sm # "" /\ ex0.sm \in DOMAIN s.smtype /\ s.smtype[ex0.sm] # "EXPRESS"), "C09", "ExpressStoresNothing:history", x, e.ev.type)
          \o ChkX(HistAppendOK(ex0.hist, e.ev), "C09", "HistoryWellFormed", x, e.ev)
          \o ChkX(NothingAfterTerminal(h1), "C09", "NothingAfterTerminal", x, e.ev.type)
          \o ChkX(~again, "C06", "FanOutFailsOnce", x, id))
@@ -350,6 +355,14 @@ StepOther(s, e) ==
       [] e.k = "storeerr" -> R(s, FX("ENV", "StoreReadable", "", e.err))
       [] e.k = "escaped"  -> R(s, FX("C18", "NoEscapedException", "", e.err))
       [] e.k = "histcut"  -> R(s, FX("C09", "HistoryNeverShrinks", e.exec, ""))
+      [] e.k = "histapi"  ->
+           (* GetExecutionHistory through the API: the stored list, numbered 1..n, and exactly its reverse *)
+           LET n == Len(e.fwd)
+               h == Ex(s, e.exec).hist
+           IN R(s, ChkX(e.status = 200 /\ e.fwd = [k \in 1..n |-> k] /\ n = Len(h) /\ e.fwdtypes = [k \in 1..n |-> h[k].type],
+                        "C09", "HistoryWellFormed:api", e.exec, e.fwd)
+                   \o ChkX(Len(e.rev) = n /\ e.rev = [k \in 1..n |-> e.fwd[n + 1 - k]] /\ e.revtypes = [k \in 1..n |-> e.fwdtypes[n + 1 - k]],
+                           "C09", "ReverseIsReverse", e.exec, e.rev))
       [] e.k = "expect"   ->
            (* the outcome of the crash-free twin of this run (same scenario, same schedule prefix) *)
            LET ex0 == Ex(s, e.exec)
